@@ -50,7 +50,7 @@ EXTENDS Integers, Sequences, FiniteSets, TLC
 CONSTANTS MaxDepth,      \* TLCGet("level") bound: level N = chains of N-1 constructs
           MaxLen,        \* sequences longer than this are terminal
           InitLen,       \* initial sequences have length 0..InitLen
-          UniverseName,  \* "u2" | "u3" | "u3n" | "u4" | "u7" | "u9"
+          UniverseName,  \* "u2" | "u3" | "u3n" | "u4" | "u7" | "u9" | "ux"
           GridName,      \* "small" | "full"
           Groups         \* subset of {"pos", "range", "iter", "agg", "cat", "focus"}
 
@@ -212,6 +212,10 @@ Tok(tok, n) ==
     [] tok = "0.0"   -> <<Dec(0, 1)>>
     [] tok = "true()" -> <<Bool(TRUE)>>
     [] tok = "1e0"   -> <<Dbl(1, 1)>>
+    [] tok = "1.0"   -> <<Dec(1, 1)>>
+    [] tok = "0.1"   -> <<Dec(1, 10)>>
+    [] tok = "0.1e0" -> <<Dbl(1, 10)>>
+    [] tok = "0.3e0" -> <<Dbl(3, 10)>>
     [] tok = "(1,2)" -> <<IntV(1), IntV(2)>>
 
 FullPos   == {"()", "-INF", "-1", "0", "0.5", "1", "1.5", "2", "2.5", "3", "len", "len+1", "INF", "NaN",
@@ -225,9 +229,9 @@ PredToks  == PosToks \cup (IF GridName = "full" THEN {"2.0", "'a'", "true()", "(
 PosOps    == IF GridName = "full" THEN CmpOps ELSE {"lt", "ge", "eq"}
 KToks     == IF GridName = "full" THEN {"0", "1", "1.5", "2", "3", "len", "len+1", "NaN"} ELSE {"1", "1.5", "len"}
 RangeToks == IF GridName = "full" THEN {"()", "-1", "0", "1", "2", "3"} ELSE {"()", "1", "3"}
-ItemKToks == IF GridName = "full" THEN {"1", "2", "2.5", "1e0", "'a'", "NaN"} ELSE {"1", "2.5"}
+ItemKToks == IF GridName = "full" THEN {"1", "2", "2.5", "1e0", "'a'", "NaN", "0.1", "0.1e0"} ELSE {"1", "2.5"}
 ItemOps   == IF GridName = "full" THEN CmpOps ELSE {"gt", "eq", "le"}
-SearchToks == IF GridName = "full" THEN {"()", "1", "1e0", "2.5", "'a'", "NaN", "true()", "2"} ELSE {"1", "'a'", "NaN"}
+SearchToks == IF GridName = "full" THEN {"()", "1", "1e0", "2.5", "'a'", "NaN", "true()", "2", "1.0", "0.1", "0.1e0", "0.3e0"} ELSE {"1", "'a'", "NaN"}
 ZeroToks  == {"()", "0.0", "'z'"}
 I9 == IntV(9)
 Sb == Str(<<98>>)
@@ -473,6 +477,54 @@ ExQuant2(S, q) ==
   QuantRes(q, [h \in 1..(n * n) |-> VC("lt", S[((h - 1) \div n) + 1], S[((h - 1) % n) + 1])])
 
 
+
+(* several clauses with DEPENDENT ranges: for $x in S, $y in DEP($x) return BODY.  XPath 3.9 / 3.13: a for
+   (quantified) expression with several clauses is DEFINED as the nested single-clause expressions; the
+   range of an inner clause is evaluated once per outer binding and may be empty for some of them. *)
+Deps == {"1 to $x - 1", "$x to 2", "S[. lt $x]"}
+DepRange(dep, S, x) ==
+  CASE dep = "1 to $x - 1" -> IF x.t # "int" THEN Err("XPTY0004") ELSE OK(Ints(1, x.q[1] - 1))
+    [] dep = "$x to 2"     -> IF x.t # "int" THEN Err("XPTY0004") ELSE OK(Ints(x.q[1], 2))
+    [] dep = "S[. lt $x]"  -> ExPredItem(S, "lt", <<x>>)
+DepBodies == {"$y", "($x, $y)"}
+(* the definition: nested for *)
+ExForDep(S, dep, f) ==
+  Combine([i \in 1..Len(S) |->
+     LET r == DepRange(dep, S, S[i]) IN
+     IF IsErr(r) THEN r ELSE OK(Concat([j \in 1..Len(r.s) |-> Body2(f, S[i], r.s[j])]))])
+(* the same as a stream of binding tuples *)
+DepTuples(S, dep) ==
+  Combine([i \in 1..Len(S) |->
+     LET r == DepRange(dep, S, S[i]) IN
+     IF IsErr(r) THEN r ELSE OK([j \in 1..Len(r.s) |-> <<S[i], r.s[j]>>])])
+ExForDepTuples(S, dep, f) ==
+  LET T == DepTuples(S, dep) IN
+  IF IsErr(T) THEN T ELSE OK(Concat([h \in 1..Len(T.s) |-> Body2(f, T.s[h][1], T.s[h][2])]))
+(* three clauses: for $x in S, $y in (1 to $x - 1), $z in ($y to 1) return BODY3 *)
+Dep3Bodies == {"$z", "($x, $y, $z)"}
+ExForDep3(S, f) ==
+  Combine([i \in 1..Len(S) |->
+     LET r == DepRange("1 to $x - 1", S, S[i]) IN
+     IF IsErr(r) THEN r
+     ELSE OK(Concat([j \in 1..Len(r.s) |->
+             LET zs == Ints(r.s[j].q[1], 1) IN
+             Concat([h \in 1..Len(zs) |-> IF f = "$z" THEN <<zs[h]>> ELSE <<S[i], r.s[j], zs[h]>>])]))])
+(* q $x in S, $y in DEP($x) satisfies TEST($x, $y).  An error of a range counts like an error of the test
+   (QuantRes: error or value when another tuple decides).  A filter range S[. lt $x] may be evaluated
+   lazily: the items selected BEFORE the first raising item are bindings too. *)
+DepTests == {"$y lt $x", "$y ge 2"}
+DepTestTruth(t, x, y) == IF t = "$y lt $x" THEN VC("lt", y, x) ELSE VC("ge", y, IntV(2))
+DepQuantTT(S, dep, t, x) ==
+  IF dep = "S[. lt $x]"
+  THEN LET tt == [j \in 1..Len(S) |-> VC("lt", S[j], x)]
+           bad == {j \in 1..Len(S) : ~IsTruth(tt[j])}
+           fe  == IF bad = {} THEN Len(S) + 1 ELSE CHOOSE j \in bad : \A h \in bad : j <= h
+           pre == Pick(S, [j \in 1..Len(S) |-> j < fe /\ tt[j] = "T"])
+       IN [j \in 1..Len(pre) |-> DepTestTruth(t, x, pre[j])] \o (IF fe <= Len(S) THEN <<tt[fe]>> ELSE <<>>)
+  ELSE LET r == DepRange(dep, S, x) IN
+       IF IsErr(r) THEN <<r.code>> ELSE [j \in 1..Len(r.s) |-> DepTestTruth(t, x, r.s[j])]
+ExQuantDep(S, q, dep, t) == QuantRes(q, Concat([i \in 1..Len(S) |-> DepQuantTT(S, dep, t, S[i])]))
+
 ---------------------------------------------------------------------------
 (* group "focus": purity of the focus.  The evaluation starts with the context item 1 at
    position 1 of 1 (select(None, expr, item=1)). *)
@@ -522,8 +574,14 @@ U3n == {Node(1), Node(2), Sa}
 U4 == {IntV(1), IntV(2), Dec(5, 2), Sa}
 U7 == {IntV(1), IntV(2), IntV(3), Dec(5, 2), Dbl(1, 1), DblNaN, Sa}
 U9 == U7 \cup {Flt(3, 2), Bool(TRUE)}
+(* values that are eq ACROSS the numeric types.  A finite xs:double item with a non-dyadic q (0.1e0, 0.3e0)
+   stands for the double NEAREST to q, i.e. the value of that literal and of the xs:decimal q promoted to
+   xs:double: F&O eq promotes the xs:decimal operand, so Dec(1,10) eq Dbl(1,10) - comparison by q is the
+   F&O comparison as long as q has few digits (rounding is injective and monotone there).  Arithmetic on
+   such values is inexact: MkFin marks the result ap (compared approximately, terminal). *)
+UX == {IntV(1), Dec(1, 1), Flt(1, 1), Dbl(1, 1), Dec(1, 10), Dbl(1, 10), Dec(3, 10), Dbl(3, 10)}
 Universe == CASE UniverseName = "u2" -> U2 [] UniverseName = "u3" -> U3 [] UniverseName = "u3n" -> U3n [] UniverseName = "u4" -> U4
-              [] UniverseName = "u7" -> U7 [] UniverseName = "u9" -> U9
+              [] UniverseName = "u7" -> U7 [] UniverseName = "u9" -> U9 [] UniverseName = "ux" -> UX
 
 (* atomization of nodes is not modelled: node universes only with the type-agnostic groups *)
 ASSUME UniverseName = "u3n" => Groups \subseteq {"pos", "range", "cat"}
@@ -560,6 +618,10 @@ ToCount           == On("range") /\ st' = OK(Ints(1, N))
 For(f)            == On("iter") /\ st' = ExFor(S, f)
 For2(T, f)        == On("iter") /\ st' = ExFor2(S, T, f)
 For2Self(f)       == On("iter") /\ st' = ExFor2(S, S, f)
+(* form "clauses": for $x in S, $y in DEP return B;  form "nested": for $x in S return for $y in DEP return B *)
+ForDep(dep, f, form)      == On("iter") /\ st' = ExForDep(S, dep, f)
+ForDep3(f, form)          == On("iter") /\ st' = ExForDep3(S, f)
+QuantDep(q, dep, t, form) == On("iter") /\ st' = ExQuantDep(S, q, dep, t)
 Quant(q, p, form) == On("iter") /\ st' = ExQuant(S, q, p, form)
 Quant2(q)         == On("iter") /\ st' = ExQuant2(S, q)
 Map(f)            == On("iter") /\ st' = ExMap(S, f)
@@ -609,6 +671,9 @@ Next ==
   \/ \E f \in ForBodies : For(f)
   \/ \E T \in InsSeqs, f \in For2Bodies : For2(T, f)
   \/ \E f \in For2Bodies : For2Self(f)
+  \/ \E dep \in Deps, f \in DepBodies, form \in {"clauses", "nested"} : ForDep(dep, f, form)
+  \/ \E f \in Dep3Bodies, form \in {"clauses", "nested"} : ForDep3(f, form)
+  \/ \E q \in {"some", "every"}, dep \in Deps, t \in DepTests, form \in {"clauses", "nested"} : QuantDep(q, dep, t, form)
   \/ \E q \in {"some", "every"}, p \in Tests, form \in {"direct", "dual"} : Quant(q, p, form)
   \/ \E q \in {"some", "every"} : Quant2(q)
   \/ \E f \in MapBodies : Map(f)
@@ -694,7 +759,7 @@ LawSum ==                                   \* sum = fold of +  = closed form; a
   (N > 0 /\ AllNum(S)) =>
      LET sm == FnSum(S, <<IntV(0)>>).s[1]
          av == FnAvg(S).s[1] IN
-       /\ sm = SumClosed(S)
+       /\ LET c == SumClosed(S) IN sm.t = c.t /\ sm.k = c.k /\ sm.q = c.q
        /\ (sm.t \in {"int", "dec"} => (av.t = "dec" /\ QAdd(<<0, 1>>, <<av.q[1] * N, av.q[2]>>) = sm.q))
        /\ (IsNaN(sm) <=> AnyNaN(S)) /\ (IsNaN(av) <=> AnyNaN(S))
        /\ av.t = (IF sm.t = "int" THEN "dec" ELSE sm.t)
@@ -717,6 +782,16 @@ LawIndexOf ==
        /\ \A i \in 1..Len(d), j \in 1..Len(d) : i # j => ~DistinctEq(d[i], d[j])
        /\ \A i \in 1..N : \E j \in 1..Len(d) : DistinctEq(S[i], d[j])
        /\ FnDistinct(d) = OK(d)
+(* several clauses = nested expressions = the stream of binding tuples; quantifiers over dependent ranges *)
+LawDep ==
+  /\ \A dep \in Deps, f \in DepBodies : ExForDep(S, dep, f) = ExForDepTuples(S, dep, f)
+  /\ \A dep \in Deps : LET T == DepTuples(S, dep) IN
+        /\ (~IsErr(T) => Len(ExForDep(S, dep, "($x, $y)").s) = 2 * Len(T.s))
+        /\ (~IsErr(T) => ExQuantDep(S, "some", dep, "$y lt $x").s[1].q[1] = (IF \E h \in 1..Len(T.s) : VC("lt", T.s[h][2], T.s[h][1]) = "T" THEN 1 ELSE 0)
+                            \/ ExQuantDep(S, "some", dep, "$y lt $x").k # "seq")
+  /\ (ExForDep3(S, "($x, $y, $z)").k = "seq" => Len(ExForDep3(S, "($x, $y, $z)").s) = 3 * Len(ExForDep3(S, "$z").s))
+  /\ (\A i \in 1..N : S[i].t = "int") =>       \* 1 to $x - 1 over integers: the sizes add up
+        Len(ExForDep(S, "1 to $x - 1", "$y").s) = Len(Concat([i \in 1..N |-> Ints(1, S[i].q[1] - 1)]))
 LawFilter ==
   /\ ExPredConst(S, <<Bool(TRUE)>>) = OK(S) /\ ExPredConst(S, <<>>) = OK(<<>>)
   /\ ExFor(S, "$x") = OK(S) /\ ExMap(S, ".") = OK(S)
@@ -737,10 +812,12 @@ LawFocus ==
   /\ \A F \in {"exists", "empty", "head", "count", "some", "geq"}, thr \in {<<IntV(2)>>, <<IntV(3)>>, <<IntV(4)>>} :
         /\ (N > 0 => ExQuantFocus(S, "every", F, thr) = ExQuantFocus(S, "some", F, thr))   \* the clause does not depend on the binding
         /\ (N = 0 => (ExQuantFocus(S, "every", F, thr) = OK(<<Bool(TRUE)>>) /\ ExQuantFocus(S, "some", F, thr) = OK(<<Bool(FALSE)>>)))
+NoNodesDep == LawDep
 NoNodes == \A i \in 1..N : S[i].t # "node"
 (* decided on every sequence that is the SOURCE of a transition (the last level is not expanded) *)
 Laws == (Usable /\ TLCGet("level") < MaxDepth) =>
                   /\ LawSubseq /\ LawReverse /\ LawInsert /\ LawRemove /\ LawHeadTail /\ LawCardinality /\ LawFilter
+                  /\ ("iter" \in Groups => NoNodesDep)
                   /\ ("focus" \in Groups => LawFocus)
                   /\ (NoNodes => LawQuantDual /\ LawSum /\ LawMinMax /\ LawIndexOf)   \* the laws about VALUES
 =============================================================================
